@@ -407,3 +407,9 @@ Proof.
     destruct (Hv a (or_introl eq_refl)) as [s Hs]. rewrite Hs.
     rewrite IH; [reflexivity|]. intros a' Ha'. apply Hv. right. exact Ha'.
 Qed.
+
+(* a read-only query between two updates changes no stream, whatever it is asked and whatever it answers *)
+Lemma query_changes_nothing (f : name -> Z -> Z -> res) (listed : bool) (l : list entry) :
+  fst (do_call f (CQuery listed) l) = l /\
+  (snd (do_call f (CQuery listed) l) = None <-> listed = true).
+Proof. destruct listed; cbn; split; try reflexivity; split; intros H; try reflexivity; discriminate. Qed.
